@@ -21,7 +21,7 @@ static void build(void) {
   static int built; if (built) return; built = 1;
   for (int tier = 0; tier < 2; tier++) for (int pg = 0; pg < PG_N; pg++) for (int n = 2; n <= (tier ? 3 : 2); n++) for (int W = 1; W <= 2; W++) {
     if (NP[tier] >= MAXP) continue;
-    prog_t * p = &P[tier][NP[tier]++]; p->pg = pg; p->n = n; p->W = W; p->K = tier ? (n == 2 ? 2 : 1) : 1;
+    prog_t * p = &P[tier][NP[tier]++]; p->pg = pg; p->n = n; p->W = W; p->K = tier ? (n == 2 && W == 2 ? 3 : 2) : 1;   /* thorough: if the deadline cuts bound 3, the completed bound is reported exactly */
     if (!tier && W == 2 && (pg == PG_MUTEX_STATIC || pg == PG_ONCE || pg == PG_DETACH) ) p->K = 2;
   }
 }
